@@ -240,9 +240,42 @@ def gen_long_history(rng, ctx):
     return {'ops': ops_, 'timeout': 300.0, 'long': True}
 
 
+def gen_variant_history(rng, ctx):
+    """Fault-free: spacing variants of one or two statements under option sets
+    that share a filter (corpus.gen_dense / draw_opts_family), every
+    (variant, options) pair called repeatedly in a shuffled order.  What one
+    call leaves behind in an object that outlives it (a token or helper kept
+    at module or class level, then changed in place by another filter) shows
+    only in a call whose text has a different neighbourhood around the same
+    construct."""
+    tpls = rng.sample(corpus.DENSE_TEMPLATES, rng.choice([1, 1, 2]))
+    texts = [corpus.gen_dense(rng, rng.choice(tpls))
+             for _ in range(rng.choice([3, 4, 5]))]
+    fam = corpus.draw_opts_family(rng, rng.choice([2, 3]))
+    ops_ = []
+    for _ in range(rng.randint(10, 28)):
+        r = rng.random()
+        if r < 0.8:
+            api, opts = 'format', dict(rng.choice(fam))
+        elif r < 0.9:
+            api, opts = 'parse', None
+        else:
+            api, opts = 'split', None
+        ops_.append({'op': 'call', 'api': api,
+                     'inp': {'t': 'str', 'v': rng.choice(texts)},
+                     'opts': opts, 'enc': None})
+    spec = {'ops': ops_, 'timeout': 300.0, 'variant': True}
+    if rng.random() < 0.15:
+        nthr = rng.choice([2, 3])
+        spec['hop'] = [rng.randrange(nthr) for _ in ops_]
+    return spec
+
+
 def gen_history(rng, ctx):
     if rng.random() < 0.01:
         return gen_long_history(rng, ctx)
+    if rng.random() < 0.12:
+        return gen_variant_history(rng, ctx)
     pal = _Palette(rng)
     n = rng.randint(3, 25)
     ops_ = []
@@ -789,6 +822,8 @@ def run_history(spec, refs):
     st['ops'] = len(spec['ops'])
     if spec.get('long'):
         st['long_histories'] = 1
+    if spec.get('variant'):
+        st['variant_histories'] = 1
     if spec.get('hop'):
         st['thread_hopping_histories'] = 1
     st['checked_ops'] = nchecked
